@@ -318,8 +318,9 @@ class Ctx:
             "wall_s": round(self.elapsed(), 2),
             "violations": len(self.violations),
         }
-        EVID.mkdir(exist_ok=True)
-        (EVID / f"{self.prop_id}.json").write_text(json.dumps(ev, indent=1, default=str))
+        if not self.replay:  # a replay of one case does not describe the check's coverage
+            EVID.mkdir(exist_ok=True)
+            (EVID / f"{self.prop_id}.json").write_text(json.dumps(ev, indent=1, default=str))
         return 1 if self.violations else 0
 
 
